@@ -108,4 +108,38 @@ example : automate exView 0 = some .fold ∧
     automate { exView with event := "BlindsRequested", players := exView.players.map (fun p => { p with allowed := if p.idx == 2 then ["pay"] else [] }) } 2 = some (.pay 20) ∧
     requestMove .running 7 exView 0 = .after 7 (some .fold) := by decide
 
+/-- the runner's status machine as the source has it now (regenerated from actor/player_runner.go): `AC.pIdle`, `pSuspend`,
+`pResume` are these three bodies -/
+theorem C19_status_machine_facts :
+    Facts.playerIdle =
+      ["if pr.status != PlayerStatus_Idle { pr.status = PlayerStatus_Idle pr.idleCount = 0 } else { pr.idleCount++ }",
+       "if pr.idleCount == pr.suspendThreshold { return pr.Suspend() }", "return nil"] ∧
+    Facts.playerSuspend = ["pr.status = PlayerStatus_Suspend", "return nil"] ∧
+    Facts.playerResume =
+      ["if pr.status == PlayerStatus_Running { return nil }", "pr.status = PlayerStatus_Running", "pr.idleCount = 0", "return nil"] := by
+  decide
+
+/-- **C19 — an idle report ends a suspension**: whatever the runner's status and count were, suspended and then reported
+idle the player is idle — not suspended — with a fresh count; and so is any player who was not idle -/
+theorem C19_idle_report_ends_suspension (s : PSt) :
+    (pIdle (pSuspend s)).status = .idle ∧ (pIdle (pSuspend s)).idleCount = 0 ∧
+    (s.status ≠ .idle → (pIdle s).status = .idle ∧ (pIdle s).idleCount = 0) := by
+  refine ⟨by simp [pIdle, pSuspend, suspendThreshold], by simp [pIdle, pSuspend, suspendThreshold], fun h => ?_⟩
+  cases hs : s.status <;> simp_all [pIdle, suspendThreshold]
+
+/-- **C19 — … and so the thinking time applies again**: after a suspension followed by an idle report the runner does
+nothing at once (unless a pass is the only option) — it arms the time bank with the player's thinking time, for every view -/
+theorem C19_waits_again_after_idle_report (s : PSt) (actionTime : Int) (v : View) (gi : Nat)
+    (hp : v.hasAction gi "pass" = false) :
+    requestMove (pIdle (pSuspend s)).status actionTime v gi = .after actionTime (automate v gi) := by
+  have h := (C19_idle_report_ends_suspension s).1
+  unfold requestMove
+  simp [hp, h]
+
+/-- a player is suspended by the runner itself only at the second idle report in a row on an idle player; a come-back
+(`Resume`, or the player's own move) makes him running with a fresh count -/
+theorem C19_status_paths :
+    (pRun {} "SI".toList).status = .idle ∧ (pRun {} "II".toList).status = .idle ∧ (pRun {} "III".toList).status = .suspend ∧
+    (pRun {} "SIR".toList).status = .running ∧ (pRun {} "IIIR".toList) = {} ∧ (pRun {} "IS".toList).status = .suspend := by decide
+
 end AC
